@@ -385,9 +385,71 @@ theorem takeWhile_tick (t : Str) (h : '`' ∉ t) (rest : Str) : (t ++ '`' :: res
   · intro a ha; simp; exact fun e => h (e ▸ ha)
   · simp
 
-/-- the lines of the return entry, and what the reference parser reads from them -/
-theorem retText_lines (r : Ret) (h : retOk r = true) :
-    ∃ ls, splitNl (retText r) = rtypeLineHead r ls ∧ True := by
-  exact ⟨[], trivial |> fun _ => by sorry, trivial⟩
+theorem retText_none (r : Ret) (h : r.doc = none) : retText r = rtypeLine r := by
+  simp [retText, rtypeLine, h]
+
+theorem retText_some (r : Ret) (d : Str) (h : r.doc = some d) (hd : d.isEmpty = false) :
+    retText r = (js!":return: " ++ d) ++ '\n' :: rtypeLine r := by
+  simp [retText, rtypeLine, h, hd]
+
+/-- what the reference parser reads from the lines of a return entry preceded by header lines -/
+theorem parse_ret_lines (r : Ret) (h : retOk r = true) (pre : List Str) (hpre : ∀ l ∈ pre, (!isRetLine l) = true) :
+    (pre ++ splitNl (retText r)).takeWhile (fun l => !isRetLine l) = pre ∧
+    ((pre ++ splitNl (retText r)).dropWhile (fun l => !isRetLine l)).isEmpty = false ∧
+    (findLine js!":rtype: ```" ((pre ++ splitNl (retText r)).dropWhile (fun l => !isRetLine l))).map
+        (fun t => t.takeWhile (· ≠ '`')) = some r.typ.render ∧
+    findLine js!":return: " ((pre ++ splitNl (retText r)).dropWhile (fun l => !isRetLine l)) = r.doc := by
+  simp only [retOk, Bool.and_eq_true] at h
+  obtain ⟨⟨htyp, _⟩, hdoc⟩ := h
+  have hsafe := render_safe r.typ htyp
+  have hnl := rtypeLine_no_nl r htyp
+  have hrt : (!isRetLine (rtypeLine r)) = false := by simp [rtypeLine_isRet]
+  have htick : (r.typ.render ++ js!"```").takeWhile (· ≠ '`') = r.typ.render := takeWhile_tick _ hsafe.1 _
+  cases hd : r.doc with
+  | none =>
+    rw [retText_none r hd, splitNl_single _ hnl]
+    rw [takeWhile_stop _ pre [] _ hpre hrt, dropWhile_stop _ pre [] _ hpre hrt]
+    refine ⟨rfl, rfl, ?_, ?_⟩
+    · simp [findLine, rtypeLine, startsWith]; simpa using htick
+    · simp [findLine, rtypeLine, startsWith, List.isPrefixOf_cons_cons]
+  | some d =>
+    rw [hd] at hdoc
+    simp only [Bool.and_eq_true, Bool.not_eq_true', decide_eq_true_eq] at hdoc
+    obtain ⟨⟨⟨hne, hline⟩, _⟩, _⟩ := hdoc
+    have hdnl : '\n' ∉ d := by
+      simp only [lineOk, Bool.and_eq_true] at hline
+      exact printable_no_nl d hline.1.1.1.1
+    have hrl : '\n' ∉ js!":return: " ++ d := by simp [hdnl]
+    have hret : (!isRetLine (js!":return: " ++ d)) = false := by
+      simp [isRetLine, startsWith]
+    rw [retText_some r d hd hne, splitNl_append_sep _ _ hrl, splitNl_single _ hnl]
+    rw [takeWhile_stop _ pre _ _ hpre hret, dropWhile_stop _ pre _ _ hpre hret]
+    refine ⟨rfl, rfl, ?_, ?_⟩
+    · simp [findLine, rtypeLine, startsWith, List.isPrefixOf_cons_cons]; simpa using htick
+    · simp [findLine, startsWith]
+
+theorem parseDesc_emitDesc (doc : Str) (ret : Option Ret) (hd : docOk doc = true)
+    (hr : ∀ r, ret = some r → retOk r = true) :
+    parseDesc (emitDesc doc ret) = (doc, ret.map expectedRet) := by
+  have hlines := docOk_lines doc hd
+  cases ret with
+  | none =>
+    simp only [emitDesc, parseDesc, Option.map_none]
+    simp only [takeWhile_all _ _ hlines, dropWhile_all _ _ hlines, join_splitNl]
+    rfl
+  | some r =>
+    have hro := hr r rfl
+    by_cases hde : doc.isEmpty = true
+    · have : doc = [] := by simpa using hde
+      subst this
+      have e : emitDesc [] (some r) = retText r := by simp [emitDesc]
+      obtain ⟨h1, h2, h3, h4⟩ := parse_ret_lines r hro [] (by simp)
+      simp only [List.nil_append] at h1 h2 h3 h4
+      simp only [e, parseDesc, h1, h2, h3, h4]
+      simp [join, expectedRet]
+    · have e : emitDesc doc (some r) = doc ++ '\n' :: retText r := by simp [emitDesc, hde]
+      obtain ⟨h1, h2, h3, h4⟩ := parse_ret_lines r hro (splitNl doc) hlines
+      simp only [e, parseDesc, splitNl_append_nl, h1, h2, h3, h4, join_splitNl]
+      simp [expectedRet]
 
 end JsonSchema
